@@ -59,6 +59,6 @@ CHECKS = {
                                             ["for n, s := range stopDeps {", "for _, n := range maporder.Keys(stopDeps) {\n\t\ts := stopDeps[n]"]]}])]},
     "C19": {"parts": [P("wrappers", "./c19", "^TestC19Wrappers$"), P("jump-hash", "./c19", "^TestC19JumpHash$")]},
     "C20": {"parts": [P("validation", "./c20", "^TestC20Validation$"), P("propagation", "./c20", "^TestC20Propagation$")]},
-    "C15": {"parts": [P("routing", "./c15", "^TestC15Routing$"), P("replication-sets", "./c15", "^TestC15ReplicationSets$"),
+    "C15": {"parts": [P("routing", "./c15", "^TestC15Routing$"), P("replication-sets", "./c15", "^TestC15ReplicationSets$"), P("multi-partition-replication-sets", "./c15", "^TestC15MultiReplicationSets$"),
                       P("state-machine", "./lifecycle", "^TestC15StateMachine$", shards={"quick": 16, "thorough": 16}, budget={"quick": 200, "thorough": 1200}, gomaxprocs=1)]},
 }
